@@ -116,7 +116,7 @@ class P(Prop):
         self.curvAbsBetween, self.ds, self.speed, self.Operator = computeCurvAbsBetweenTwoPoints, ds, speed, Operator
 
     # ---------------------------------------------------------------- generators
-    OPS = ["a", "s", "as", "sa", "aa", "ss", "asas", "aas", "ssa", "saas"]
+    OPS = ["a", "s", "as", "sa", "aa", "ss", "asas", "aas", "ssa", "saas", "S", "aS", "Sa", "SS", "sS", "aSa"]   # S = the method track.estimate_speed()
 
     def exhaustive_scopes(self, tier):
         n = 5 if tier == "thorough" else 4
@@ -195,7 +195,22 @@ class P(Prop):
         if rng.random() < 0.3:   # half-integer offset keeps everything dyadic
             pos = [[p[0] + 0.5, p[1] - 0.5] for p in pos]
         pos = [[p[0], p[1], rng.choice([0, 0, 1, -7, 100, rng.randrange(-50, 50)])] for p in pos]
-        return {"kind": "lattice-" + shape, "mode": "q", "pos": pos, "tms": self.times(rng, n), "feats": [], "ops": rng.choice(self.OPS)}
+        return self.with_zones(rng, {"kind": "lattice-" + shape, "mode": "q", "pos": pos, "tms": self.times(rng, n), "feats": [], "ops": rng.choice(self.OPS)})
+
+    def with_zones(self, rng, case):
+        """the `zone` field of the stamps (not read by toAbsTime): one other zone for the whole track, two loggers set to
+        different zones, a zone per fix; most tracks keep zone 0 (no "zones" key)"""
+        r, n = rng.random(), len(case["pos"])
+        if r < 0.25:
+            zs = [0, 1, 2, -5, 12, -11]
+            if r < 0.06 or n < 2:
+                case["zones"] = [rng.choice(zs[1:])] * n
+            elif r < 0.18:
+                m = rng.randrange(1, n)
+                case["zones"] = [rng.choice(zs)] * m + [rng.choice(zs)] * (n - m)
+            else:
+                case["zones"] = [rng.choice(zs[:4]) for _ in range(n)]
+        return case
 
     def floaty(self, rng):
         n = rng.randrange(2, 9)
@@ -208,7 +223,7 @@ class P(Prop):
                 a = rng.uniform(0, 2 * math.pi)
                 x, y = x + step * math.cos(a), y + step * math.sin(a)
         ms = rng.random() < 0.3
-        return {"kind": "float-ms" if ms else "float", "mode": "f", "pos": pos, "tms": self.times(rng, n, ms), "feats": [], "ops": rng.choice(self.OPS)}
+        return self.with_zones(rng, {"kind": "float-ms" if ms else "float", "mode": "f", "pos": pos, "tms": self.times(rng, n, ms), "feats": [], "ops": rng.choice(self.OPS)})
 
     def prefeat(self, rng):
         c = self.lattice(rng) if rng.random() < 0.6 else self.floaty(rng)
@@ -226,19 +241,28 @@ class P(Prop):
     def describe1(self, case):
         n = len(case["pos"])
         t = case["tms"]
-        return {"kind": case["kind"], "n": n, "ops": case["ops"],
+        return {"kind": case["kind"], "n": n, "ops": case["ops"], "zones": self.zone_tag(W.zones_of(case)),
                 "repeated_pos": any(l == 0 for l in self.legs(case)), "repeated_time": any(t[i] == t[i + 1] for i in range(n - 1))}
+
+    @staticmethod
+    def zone_tag(zones):
+        return "0" if not any(zones) else "one" if len(set(zones)) == 1 else "mixed"
 
     def nontrivial1(self, case):
         return len(case["pos"]) >= 2 and any(l > 0 for l in self.legs(case))
 
     # ---------------------------------------------------------------- implementation
+    def stamp(self, tms, zone=0):
+        """an ObsTime object reading `tms` milliseconds after 1970-01-01 00:00:00 on a clock set to `zone`"""
+        t = self.T.readUnixTime(tms // 1000)
+        t.ms = tms % 1000
+        t.zone = zone
+        return t
+
     def build(self, case):
         tr = self.Track([], 1)
-        for p, tms in zip(case["pos"], case["tms"]):
-            t = self.T.readUnixTime(tms // 1000)
-            t.ms = tms % 1000
-            tr.addObs(self.Obs(self.ENU(p[0], p[1], p[2]), t))
+        for p, tms, z in zip(case["pos"], case["tms"], W.zones_of(case)):
+            tr.addObs(self.Obs(self.ENU(p[0], p[1], p[2]), self.stamp(tms, z)))
         for name, col in case["feats"]:
             tr.createAnalyticalFeature(name)
             for i, v in enumerate(col):
@@ -249,17 +273,18 @@ class P(Prop):
         tr = self.build(case)
         rets = []
         for op in case["ops"]:
-            r = self.computeAbsCurv(tr) if op == "a" else self.estimate_speed(tr)
+            r = self.computeAbsCurv(tr) if op == "a" else tr.estimate_speed() if op == "S" else self.estimate_speed(tr)
             rets.append(list(r))
         feats = [[nm, list(tr.getAnalyticalFeature(nm))] for nm in tr.getListAnalyticalFeatures()]
-        xyz, t, tms = [], [], []
+        xyz, t, tms, zones = [], [], [], []
         for i in range(tr.size()):
             o = tr.getObs(i)
             xyz.append([o.position.getX(), o.position.getY(), o.position.getZ()])
             s = o.timestamp
             t.append(s.toAbsTime())
             tms.append(calendar.timegm((s.year, s.month, s.day, s.hour, s.min, s.sec)) * 1000 + s.ms)
-        return {"rets": rets, "feats": feats, "xyz": xyz, "t": t, "tms": tms, "n": tr.size()}
+            zones.append(s.zone)
+        return {"rets": rets, "feats": feats, "xyz": xyz, "t": t, "tms": tms, "zones": zones, "n": tr.size()}
 
     # ---------------------------------------------------------------- model
     def abs_t(self, tms):
@@ -275,7 +300,8 @@ class P(Prop):
         else:
             ts = tok_list(fbits((t // 1000) + (t % 1000) / 1000.0) for t in case["tms"])
         feats = tok_list((nm + ":" + tok_list(enc(v) for v in col) for nm, col in case["feats"]), sep=";")
-        return ["C17.run %s %s %s %s %s %s" % (case["mode"], xs, ys, ts, feats, case["ops"])]
+        # the method track.estimate_speed() (kernel None) is the function: one model operation
+        return ["C17.run %s %s %s %s %s %s" % (case["mode"], xs, ys, ts, feats, case["ops"].replace("S", "s"))]
 
     def decode1(self, case, replies):
         r = replies[0]
@@ -291,7 +317,7 @@ class P(Prop):
             feats.append([nm, [dec(w) for w in untok(col)]])
         xs, ys, ts = [dec(w) for w in untok(xs)], [dec(w) for w in untok(ys)], [dec(w) for w in untok(ts)]
         return {"rets": rets, "feats": feats, "xyz": [[x, y, p[2]] for x, y, p in zip(xs, ys, case["pos"])],
-                "t": ts, "tms": list(case["tms"]), "n": len(xs)}
+                "t": ts, "tms": list(case["tms"]), "zones": W.zones_of(case), "n": len(xs)}
 
     # ---------------------------------------------------------------- oracle (transfer)
     def spec1(self, case, out):
@@ -303,6 +329,9 @@ class P(Prop):
             return "positions changed: %s -> %s" % (pos, out["xyz"])
         if out["tms"] != tms:
             return "timestamps changed: %s -> %s" % (tms, out["tms"])
+        zones = W.zones_of(case)
+        if out["zones"] != zones:
+            return "timestamps changed: their zone fields were %s, are %s" % (zones, out["zones"])
         given = {nm for nm, _ in case["feats"]}
         after = dict((nm, col) for nm, col in out["feats"])
         for nm, col in case["feats"]:
@@ -338,24 +367,9 @@ class P(Prop):
             else:
                 if "speed" in given:
                     continue      # an existing `speed` feature is returned as it is
-                v = ret
-                if len(v) != n:
-                    return "speed has %d values for %d fixes" % (len(v), n)
-                tmax = max(abs(t) for t in tms) / 1000.0
-                for i in range(n):
-                    a, b = (1, 0) if i == 0 else (n - 1, n - 2) if i == n - 1 else (i + 1, i - 1)
-                    el = Fraction(tms[a] - tms[b], 1000)
-                    if el == 0:
-                        if not isnan(v[i]):
-                            return "speed[%d] = %r although no time elapsed between fixes %d and %d (NaN expected)" % (i, v[i], b, a)
-                        continue
-                    d = math.hypot(pos[a][0] - pos[b][0], pos[a][1] - pos[b][1])
-                    want = d / float(el)
-                    # float seconds since 1970 carry an absolute error of one ulp each when milliseconds are present
-                    rel = 1e-9 + (4 * ulp(tmax) / float(el) if any(t % 1000 for t in tms) else 0.0)
-                    if isnan(v[i]) or abs(v[i] - want) > rel * max(abs(want), 1e-300):
-                        return ("speed[%d] = %r, expected distance(fix %d, fix %d) / elapsed = %r / %s = %r"
-                                % (i, v[i], b, a, d, float(el), want))
+                msg = self.chk_speed(ret, pos, tms, zones)
+                if msg:
+                    return msg
         return None
 
     # ---------------------------------------------------------------- shrinking / search
@@ -366,11 +380,16 @@ class P(Prop):
                 yield dict(case, ops=case["ops"][:i] + case["ops"][i + 1:])
         if n > 2:
             for i in range(n):
-                yield dict(case, pos=case["pos"][:i] + case["pos"][i + 1:], tms=case["tms"][:i] + case["tms"][i + 1:],
-                           feats=[[nm, col[:i] + col[i + 1:]] for nm, col in case["feats"]])
+                c = dict(case, pos=case["pos"][:i] + case["pos"][i + 1:], tms=case["tms"][:i] + case["tms"][i + 1:],
+                         feats=[[nm, col[:i] + col[i + 1:]] for nm, col in case["feats"]])
+                if case.get("zones"):
+                    c["zones"] = case["zones"][:i] + case["zones"][i + 1:]
+                yield c
         if case["feats"]:
             for i in range(len(case["feats"])):
                 yield dict(case, feats=case["feats"][:i] + case["feats"][i + 1:])
+        if any(case.get("zones") or []):
+            yield {k: v for k, v in case.items() if k != "zones"}
         if any(p[2] != 0 for p in case["pos"]):
             yield dict(case, pos=[[p[0], p[1], 0] for p in case["pos"]])
         t0 = case["tms"][0]
@@ -627,10 +646,8 @@ class P(Prop):
         if not W.valid_case(case):
             return {"invalid": True}
         H = []
-        for p, tms in zip(case["pos"], case["tms"]):
-            t = self.T.readUnixTime(tms // 1000)
-            t.ms = tms % 1000
-            H.append(self.Obs(self.ENU(p[0], p[1], p[2]), t))
+        for p, tms, z in zip(case["pos"], case["tms"], W.zones_of(case)):
+            H.append(self.Obs(self.ENU(p[0], p[1], p[2]), self.stamp(tms, z)))
         tracks = [self.Track(list(H), 1)]
         ops = []
         for op in case["hist"]:
@@ -678,7 +695,7 @@ class P(Prop):
         out = []
         for o in H:
             s, c = o.timestamp, o.position
-            out.append({"xyz": [c.E, c.N, c.U], "t": [s.year, s.month, s.day, s.hour, s.min, s.sec, s.ms], "nf": len(o.features)})
+            out.append({"xyz": [c.E, c.N, c.U], "t": [s.year, s.month, s.day, s.hour, s.min, s.sec, s.ms, s.zone], "nf": len(o.features)})
         return out
 
     def w_apply(self, H, tracks, op):
@@ -729,6 +746,9 @@ class P(Prop):
         if kind == "et":
             setattr(tr.getObs(op[2]).timestamp, op[3], op[4])
             return None
+        if kind == "tz":
+            tr.setTimeZone(op[2])
+            return None
         if kind == "add":
             new = tr + tracks[op[2]]
         elif kind == "ext":
@@ -752,13 +772,12 @@ class P(Prop):
         for p, tms in zip(case["pos"], case["tms"]):
             f = W.fields_of(tms)
             pool.append(",".join([enc(p[0]), enc(p[1]), enc(p[2])] + [str(f[k]) for k in W.FIELDS]))
+        pool = [o + "," + str(z) for o, z in zip(pool, W.zones_of(case))]
         ops = []
         for op in case["hist"]:
             kind = op[0]
-            if kind in ("a", "f", "d", "I", "E", "D", "L", "c", "cp"):
+            if kind in ("a", "s", "S", "f", "d", "I", "E", "D", "L", "c", "cp"):
                 ops.append("%s:%d" % (kind, op[1]))
-            elif kind in ("s", "S"):
-                ops.append("s:%d" % op[1])
             elif kind in ("g", "rm", "q"):
                 ops.append("%s:%d:%s" % (kind, op[1], op[2]))
             elif kind == "w":
@@ -771,6 +790,8 @@ class P(Prop):
                 ops.append("ex:%d:%d:%s:%s" % (op[1], op[2], op[3], enc(op[4])))
             elif kind == "et":
                 ops.append("et:%d:%d:%s:%d" % (op[1], op[2], op[3], op[4]))
+            elif kind == "tz":
+                ops.append("tz:%d:%d" % (op[1], op[2]))
         return ["C17.world %s %s %s" % (case["mode"], tok_list(pool, ";"), tok_list(ops, ";"))]
 
     def w_decode(self, case, replies):
@@ -807,7 +828,7 @@ class P(Prop):
             hp = []
             for o in untok(heap, ";"):
                 w = o.split(",")
-                hp.append({"xyz": [dec(w[0]), dec(w[1]), dec(w[2])], "t": [int(x) for x in w[3:10]], "nf": int(w[10])})
+                hp.append({"xyz": [dec(w[0]), dec(w[1]), dec(w[2])], "t": [int(x) for x in w[3:10]] + [int(w[11])], "nf": int(w[10])})
             rec["heap"] = hp
             ops.append(rec)
         tracks = []
@@ -853,24 +874,40 @@ class P(Prop):
                 return "ds[%d] = %r, planimetric distance to the previous fix is %r" % (i + 1, d[i + 1], legs[i])
         return None
 
-    def chk_speed(self, v, pos, tms):
+    def chk_speed(self, v, pos, tms, zones=None):
+        """the clauses of the statement about speed. `tms`: clock readings (ms) of the stamps, `zones`: their zone fields.
+        "The time elapsed between" two stamps of the SAME zone is the difference of their readings. Between stamps of
+        DIFFERENT zones the statement leaves it open whether it is the difference of the readings (the library's t2 - t1,
+        which does not read `zone`) or of the instants (readings brought to one zone): either is accepted there."""
         n = len(pos)
         if not isinstance(v, list) or len(v) != n:
             return "speed has %s values for %d fixes" % (len(v) if isinstance(v, list) else v, n)
         tmax = max(abs(t) for t in tms) / 1000.0
         for i in range(n):
             a, b = (1, 0) if i == 0 else (n - 1, n - 2) if i == n - 1 else (i + 1, i - 1)
-            el = Fraction(tms[a] - tms[b], 1000)
-            if el == 0:
-                if not isnan(v[i]):
-                    return "speed[%d] = %r although no time elapsed between fixes %d and %d (NaN expected)" % (i, v[i], b, a)
+            els = [Fraction(tms[a] - tms[b], 1000)]
+            if zones is not None and zones[a] != zones[b]:
+                els.append(els[0] - 3600 * (zones[a] - zones[b]))
+            if isnan(v[i]):
+                if all(el != 0 for el in els):
+                    return ("speed[%d] is NaN although %s s elapsed between fixes %d and %d" % (i, float(els[0]), b, a))
                 continue
+            if all(el == 0 for el in els):
+                return "speed[%d] = %r although no time elapsed between fixes %d and %d (NaN expected)" % (i, v[i], b, a)
             d = math.hypot(pos[a][0] - pos[b][0], pos[a][1] - pos[b][1])
-            want = d / float(el)
-            rel = 1e-9 + (4 * ulp(tmax) / float(el) if any(t % 1000 for t in tms) else 0.0)
-            if isnan(v[i]) or abs(v[i] - want) > rel * max(abs(want), 1e-300):
-                return ("speed[%d] = %r, expected distance(fix %d, fix %d) / elapsed = %r / %s = %r"
-                        % (i, v[i], b, a, d, float(el), want))
+            bad = None
+            for el in els:
+                if el == 0:
+                    continue
+                want = d / float(el)
+                rel = 1e-9 + (4 * ulp(tmax) / abs(float(el)) if any(t % 1000 for t in tms) else 0.0)
+                if abs(v[i] - want) <= rel * max(abs(want), 1e-300):
+                    bad = None
+                    break
+                bad = bad or ("speed[%d] = %r, expected distance(fix %d, fix %d) / elapsed = %r / %s = %r"
+                              % (i, v[i], b, a, d, float(el), want))
+            if bad:
+                return bad
         return None
 
     def w_spec(self, case, out):
@@ -924,8 +961,8 @@ class P(Prop):
         for h, o in enumerate(heap[:len(sym.pos)]):
             if not close(o["xyz"], sym.pos[h], 0.0, 0.0):
                 return "position of observation %d is %s, expected %s" % (h, o["xyz"], sym.pos[h])
-            if o["t"] != [sym.fld[h][f] for f in W.FIELDS]:
-                return "timestamp of observation %d is %s, expected %s" % (h, o["t"], [sym.fld[h][f] for f in W.FIELDS])
+            if o["t"] != [sym.fld[h][f] for f in W.ZFIELDS]:
+                return "timestamp of observation %d is %s (year, month, day, hour, min, sec, ms, zone), expected %s" % (h, o["t"], [sym.fld[h][f] for f in W.ZFIELDS])
         if kind in W.NEW_OPS or kind in W.EDIT_OPS:
             return None
         if not ok:
@@ -961,7 +998,7 @@ class P(Prop):
         if chk == "ds":
             return self.chk_ds(r, legs)
         if chk == "speed":
-            return self.chk_speed(r, pos, [sym.tms(h) for h in ids]) if mono else None
+            return self.chk_speed(r, pos, [sym.tms(h) for h in ids], [sym.zone(h) for h in ids]) if mono else None
         if chk == "curvabs":
             total = math.fsum(legs)
             if isnan(r) or abs(r - total) > 1e-9 * max(total, 1e-300):
@@ -992,6 +1029,8 @@ class P(Prop):
             c = dict(case, hist=hist[:i] + hist[i + 1:])
             if W.valid_case(c) and (known or W.list_init_on_foreign_slots(c) is None):
                 yield c
+        if any(case.get("zones") or []):
+            yield {k: v for k, v in case.items() if k != "zones"}
         t0 = min(case["tms"])
         base = t0 - t0 % 3600000
         if base:
@@ -1000,7 +1039,8 @@ class P(Prop):
     def w_describe(self, case):
         kinds = [op[0] for op in case["hist"]]
         return {"kind": case["kind"] + "-" + case["mode"], "n": len(case["pos"]), "len": len(kinds),
-                "shared": any(k in ("add", "ext", "sl") for k in kinds), "edits": any(k in ("ex", "et") for k in kinds),
+                "shared": any(k in ("add", "ext", "sl") for k in kinds), "edits": any(k in ("ex", "et", "tz") for k in kinds),
+                "zones": "edited" if any(op[0] == "tz" or (op[0] == "et" and op[3] == "zone") for op in case["hist"]) else self.zone_tag(W.zones_of(case)),
                 "ops": "".join(sorted(set(k[0] for k in kinds)))}
 
     def w_nontrivial(self, case):
